@@ -82,11 +82,11 @@ impl Opts {
         })
     }
     pub fn apply(&self, b: &mut QRBuilder) {
-        // orders 24..=47: every setter present is first called with a DIFFERENT value (last value wins), then the
-        // real values follow in permutation (order - 24)
+        // orders 24..=71: every setter present is first called with a DIFFERENT value (last value wins), then the
+        // real values follow in permutation (order % 24); 24..=47 and 48..=71 use the two other modes as decoy
         if self.order >= 24 {
             if let Some(m) = self.mode {
-                b.mode(MODES[(m as usize + 1) % 3]);
+                b.mode(MODES[(m as usize + if self.order >= 48 { 2 } else { 1 }) % 3]);
             }
             if let Some(e) = self.ecl {
                 b.ecl(ECLS[(e as usize + 1) % 4]);
